@@ -43,7 +43,7 @@ type Profile struct {
 
 func baseProfile() Profile {
 	return Profile{Name: "general", MaxAuctions: 4, Blocks: [2]int{8, 40}, TxPerBlock: 3, Vesting: [2]int{0, 4}, MaxRounds: [2]int{0, 3},
-		Faults: map[string]float64{FCrashPre: 0.04, FCrashPost: 0.03, FLostCommit: 0.02, FOEAbort: 0.03, FOEHit: 0.03, FQuery: 0.03, FCheckTx: 0.03, FDiscarded: 0.05},
+		Faults:   map[string]float64{FCrashPre: 0.04, FCrashPost: 0.03, FLostCommit: 0.02, FOEAbort: 0.03, FOEHit: 0.03, FQuery: 0.03, FCheckTx: 0.03, FDiscarded: 0.05},
 		WInvalid: 0.25, WAdversary: 0.05, WForeign: 0.06, WModify: 0.15, WCancel: 0.05, WCapChange: 0.08, WParams: 0.03, Drain: true}
 }
 
